@@ -13,6 +13,28 @@ From P Require Import Flt Lines MulgridIO.
 Import ListNotations.
 
 Definition colon : ascii := ":"%char.
+
+(** [Wire.fields] reverses every token with the stdlib [rev] (quadratic once extracted); a file
+    travels as ONE hex token of twice its size, so the driver splits and decodes with
+    accumulator versions (plumbing only: no theorem mentions them) *)
+Fixpoint fields_acc (cur : str) (acc : list str) (s : str) : list str :=
+  match s with
+  | [] => rev_append acc [rev_append cur []]
+  | c :: r => if ceqb c tab then fields_acc [] (rev_append cur [] :: acc) r else fields_acc (c :: cur) acc r
+  end.
+Definition fields_tr (s : str) : list str := fields_acc [] [] s.
+Fixpoint unhex_acc (acc : str) (s : str) : str :=
+  match s with
+  | a :: b :: r => unhex_acc (ascii_of_nat (16 * hexval a + hexval b) :: acc) r
+  | _ => rev_append acc []
+  end.
+Definition unhex_tr (s : str) : str := unhex_acc [] s.
+Fixpoint hex_acc (acc : str) (s : str) : str :=
+  match s with
+  | c :: r => let n := nat_of_ascii c in hex_acc (hexdigit (n mod 16) :: hexdigit (n / 16) :: acc) r
+  | [] => rev_append acc []
+  end.
+Definition hex_tr (s : str) : str := hex_acc [] s.
 Definition isN (s : str) : bool := str_eqb s (s2l "N").
 Definition dy_of_tok (s : str) : dy :=
   match split_c colon s with
@@ -147,16 +169,16 @@ Definition res_eqb (a b : res str) : bool :=
   end.
 
 Definition run_case (line : str) : str :=
-  match fields line with
+  match fields_tr line with
   | k :: args =>
       if str_eqb k (s2l "W") then
         match geo_of_tokens args with
         | None => s2l "BADCASE"
-        | Some g => match write g with Ok b => app (s2l "OK ") (hex b) | Raise e => app (s2l "RAISE ") (show_exn e) end
+        | Some g => match write g with Ok b => app (s2l "OK ") (hex_tr b) | Raise e => app (s2l "RAISE ") (show_exn e) end
         end
       else if str_eqb k (s2l "R") then
         match args with
-        | [h] => match read (unhex h) with Ok g => app (s2l "OK ") (show_geo g) | Raise e => app (s2l "RAISE ") (show_exn e) end
+        | [h] => match read (unhex_tr h) with Ok g => app (s2l "OK ") (show_geo g) | Raise e => app (s2l "RAISE ") (show_exn e) end
         | _ => s2l "BADCASE"
         end
       else if str_eqb k (s2l "F") then
